@@ -50,9 +50,11 @@ func NewQuery(queryString string) (*Query, error) {
 	}
 
 	if query.stmt.Condition != nil {
+		// The condition of the user must be evaluated as a unit,
+		// an OR in it would otherwise bind weaker than the AND of the time range.
 		query.stmt.Condition = &influxql.BinaryExpr{
 			Op:  influxql.AND,
-			LHS: query.stmt.Condition,
+			LHS: &influxql.ParenExpr{Expr: query.stmt.Condition},
 			RHS: &influxql.BinaryExpr{
 				Op:  influxql.AND,
 				LHS: startExpr,
